@@ -177,6 +177,20 @@ def processLine (acc : Acc) (line : String) : Acc :=
     let s := applyMod emptyState kv
     { acc with cur := { s with lastNow := intOf (kv.get "t"), hist := [],
                                infl := { s.infl with mints := natOf (kv.get "mints"), skips := 0, issued := [] } } }
+  else if line.startsWith "G " then
+    -- `G <seq> t=<now> h=<height> given=<records handed to epochs.InitGenesis> stored=<records read back>`
+    match (line.drop 2).toString.splitOn " " with
+    | seq :: rest =>
+      let kv := kvOf rest
+      let want := (Epochs.initGenesis (intOf (kv.get "t")) (intOf (kv.get "h")) (parseInfos (kv.get "given")))
+      let got := parseInfos (kv.get "stored")
+      -- the store lists records by identifier; several records with one identifier overwrite each other (last wins)
+      let ok := got.all (fun g => (want.filter (fun w => w.id == g.id)).getLast? == some g) &&
+                want.all (fun w => got.any (fun g => g.id == w.id))
+      if ok then { acc with out := acc.out.push s!"{seq} A initgenesis/ok/-" }
+      else { acc with out := (acc.out.push s!"{seq} D initgenesis/ok/- comps=infos model={repr want} impl={repr got}").push
+                              s!"{seq} V C12 init_genesis_keeps_start" |>.push s!"{seq} V C18 init_genesis_keeps_start" }
+    | _ => acc
   else if line.startsWith "O " then
     let (opToks, outToks, deltaToks) := splitOp line
     match opToks with
